@@ -1037,12 +1037,16 @@ func TypeNames(s *Struct, names []string, codec Codec, fn func(Recipe)) {
 				if len(si) == 0 || len(sj) == 0 {
 					continue
 				}
-				// the second instant later than the first
-				later := sj[0]
+				// the second instant later than the first, and the other way round
+				later := Shape{Name: "later", Class: "time", Build: func(*Gen) reflect.Value { return val(T1.Add(150 * time.Minute)) }}
+				a, b := si[0], sj[0]
 				if timeFields[j].Kind == KTime {
-					later = Shape{Name: "later", Class: "time", Build: func(*Gen) reflect.Value { return val(T1.Add(150 * time.Minute)) }}
+					b = later
 				}
-				fn(Recipe{Struct: s, TypeName: name, Sets: []Set{{timeFields[i], si[0]}, {timeFields[j], later}}})
+				fn(Recipe{Struct: s, TypeName: name, Sets: []Set{{timeFields[i], a}, {timeFields[j], b}}})
+				if timeFields[i].Kind == KTime && timeFields[j].Kind == KTime {
+					fn(Recipe{Struct: s, TypeName: name, Sets: []Set{{timeFields[i], later}, {timeFields[j], sj[0]}}})
+				}
 			}
 		}
 	}
@@ -1124,6 +1128,9 @@ func DeepChain(s *Struct, via string, depth int) (Recipe, bool) {
 // stripped, scheme and fragment stripped). An index, cache or "seen" set keyed by such a hash without comparing the ids treats
 // them as one identity. The table is generated by cmd/verif-gencollisions (birthday search) and checked in.
 func CollidingIDs() [][2]ap.IRI { return collidingIDs }
+
+// CollidingStrings returns pairs of short strings (shaped like media types) that collide under the same hashes of their bytes.
+func CollidingStrings() [][2]string { return collidingStrings }
 
 // Collisions yields values whose list properties hold both members of a CollidingIDs pair (as IRIs, and as IRI + embedded object).
 func Collisions(fn func(Recipe)) {
